@@ -1,11 +1,14 @@
 """C06 – a valid request is executed exactly once and answered faithfully: case generation."""
 import random
 from vf import Case
+from gen import constants
 from props import regpcommon as R
 
 ID = "C06"
 DRIVER = "drv_regp"
 HARNESS = "h_regp"
+GEN = [constants.gen]
+TIE = ['Ufw.Tie.Regp']
 RULE = ("{read, write} x {8, 16}-bit request semantics x {8, 16}-bit attached memory (matching and mismatching) x {serial, tcp} x every "
         "backend verdict 0..11 (and an out-of-range verdict) x addresses (0, SLIP control octets, 0xffffffff, random) x block sizes "
         "0..capacity+2 around the transmit limit x payloads incl. C0/DB octets x sequence numbers; sessions interleaving requests with "
